@@ -249,10 +249,35 @@ class Gen:
             if rng.chance(1, 3):
                 inner = {f["label"]: (f["ty"][1] if f["ty"][0] == "opt" else f["ty"]) for f in d["fields"]}
                 live = [(j, l, v) for j, (l, v) in enumerate(fs) if v != ("N",)]
-                cands = [(a, b) for a in live for b in live if a[0] < b[0] and inner[a[1]] == inner[b[1]] and inner[a[1]][0] in ("strcap", "strref", "bytescap", "bytesref", "bytearr", "bytearrref")]
+                TXT, BYT = ("strcap", "strref"), ("bytescap", "bytesref")
+
+                def compatible(x, y, val):
+                    if x == y and x[0] in TXT + BYT + ("bytearr", "bytearrref"):
+                        return True
+                    # text into text / bytes into bytes of another capacity when the value fits (rp name = rp id, ...)
+                    same = (x[0] in TXT and y[0] in TXT) or (x[0] in BYT and y[0] in BYT)
+                    return same and (y[0] in ("strref", "bytesref") or len(val[1]) <= y[1])
+                cands = []
+                for a in live:
+                    for b in live:
+                        if a[0] != b[0]:
+                            src = a[2][1] if a[2][0] == "S" else a[2]
+                            if compatible(inner[a[1]], inner[b[1]], src):
+                                cands.append((a, b))
                 if cands:
                     a, b = rng.choice(cands)
                     src = a[2][1] if a[2][0] == "S" else a[2]
+                    # ... or ALMOST the value: equal up to ASCII case, a trailing dot / space, one character more or less
+                    if src[0] == "s" and not self.canonical and rng.chance(1, 2):
+                        t = bytes(src[1])
+                        t2 = rng.choice([t.upper(), t.lower(), t.swapcase(), t[:1].upper() + t[1:], t + b".", t + b" ", t[:-1]])
+                        tgt = inner[b[1]]
+                        if tgt[0] == "strref" or len(t2) <= tgt[1]:
+                            try:
+                                t2.decode("utf-8")
+                                src = ("s", t2)
+                            except UnicodeDecodeError:
+                                pass
                     fs[b[0]] = (b[1], ("S", src) if b[2][0] == "S" else src)
             return ("R", fs)
         if d["kind"] == "strenum":
@@ -583,3 +608,25 @@ def novel_spellings(schema):
             if sp not in known and (name, sp) not in out:
                 out.append((name, sp))
     return out
+
+
+def der_ecdsa_sig(rng, shape=None):
+    """a structurally exact DER ECDSA signature SEQUENCE { INTEGER r, INTEGER s }: each integer 1..33 bytes, minimal, with a redundant
+    leading zero (next byte below 0x80), with the required leading zero (next byte 0x80 or above) or negative (first byte 0x80 or above);
+    at most 72 bytes in all - what signing back ends really return, and what code that 'normalises' signatures reacts to"""
+    def integer(kind):
+        if kind == 0:      # minimal positive
+            n = rng.choice([1, 20, 31, 32])
+            return bytes([1 + rng.below(0x7F)]) + rng.bytes(n - 1)
+        if kind == 1:      # required leading zero
+            n = rng.choice([1, 31, 32])
+            return b"\x00" + bytes([0x80 + rng.below(0x80)]) + rng.bytes(n - 1)
+        if kind == 2:      # redundant leading zero
+            n = rng.choice([1, 30, 31, 32])
+            return b"\x00" + bytes([rng.below(0x80)]) + rng.bytes(n - 1)
+        n = rng.choice([1, 32])   # negative
+        return bytes([0x80 + rng.below(0x80)]) + rng.bytes(n - 1)
+    kr, ks = shape if shape else (rng.below(4), rng.below(4))
+    r, s_ = integer(kr), integer(ks)
+    body = b"\x02" + bytes([len(r)]) + r + b"\x02" + bytes([len(s_)]) + s_
+    return b"\x30" + bytes([len(body)]) + body
